@@ -350,9 +350,10 @@ class NetworkMixin(RadioMixin):
             if temp_buf is None:
                 return ret_val
             if (
-                not self.frame_buf.unpack(temp_buf)
-                or not is_address_valid(self.frame_buf.header.to_node)
-                or not is_address_valid(self.frame_buf.header.from_node)
+                len(temp_buf) < 8  # validate before frame_buf is overwritten
+                or not is_address_valid(temp_buf[2] | (temp_buf[3] << 8))
+                or not is_address_valid(temp_buf[0] | (temp_buf[1] << 8))
+                or not self.frame_buf.unpack(temp_buf)
             ):
                 # print("discarding frame due to invalid network addresses.")
                 continue
